@@ -109,7 +109,8 @@ def guard_blocks(fn, cond_pred, branch=0):
         if len(succ) <= branch or succ[branch] < 0:
             continue
         s = succ[branch]
-        if all(p == b for p in preds[s]):
+        infeas = fn.infeasible_edges()
+        if all(p == b or (p, s) in infeas or p not in fn.reachable() for p in preds[s]):
             res.add(s)
     return res
 
